@@ -112,6 +112,11 @@ func (w *WindowCalculator) windowOffset(agentID identity.AgentID) time.Duration 
 func (w *WindowCalculator) cycleStart(t time.Time) time.Time {
 	elapsed := t.Sub(w.cfg.Epoch)
 	cycleNum := elapsed / w.cfg.CycleLength
+	if elapsed%w.cfg.CycleLength < 0 {
+		// Go's integer division truncates toward zero. For instants before
+		// the epoch that would select the following cycle: take the floor.
+		cycleNum--
+	}
 	return w.cfg.Epoch.Add(cycleNum * w.cfg.CycleLength)
 }
 
